@@ -402,3 +402,62 @@ impl SyncAssetTransfer {
         }
     }
 }
+
+#[cfg(feature = "verif_hooks")]
+pub(crate) fn verif_mesh_to_bin(mesh: &Mesh) -> Vec<u8> {
+    mesh_to_bin(mesh)
+}
+#[cfg(feature = "verif_hooks")]
+pub(crate) fn verif_bin_to_mesh(bin: &[u8]) -> Mesh {
+    bin_to_mesh(bin)
+}
+#[cfg(feature = "verif_hooks")]
+pub(crate) fn verif_image_to_bin(image: &Image) -> Option<Vec<u8>> {
+    image_to_bin(image)
+}
+#[cfg(feature = "verif_hooks")]
+pub(crate) fn verif_bin_to_image(bin: &[u8]) -> Option<Image> {
+    bin_to_image(bin)
+}
+
+#[cfg(feature = "verif_hooks")]
+impl SyncAssetTransfer {
+    pub(crate) fn verif_stats(&self) -> crate::verif::TransferStats {
+        fn keys(c: &MeshCache) -> Vec<Uuid> {
+            let mut v: Vec<Uuid> = c.read().map(|m| m.keys().copied().collect()).unwrap_or_default();
+            v.sort();
+            v
+        }
+        fn len(c: &MeshCache) -> usize {
+            c.read().map(|m| m.len()).unwrap_or(0)
+        }
+        crate::verif::TransferStats {
+            downloads_active: self.download_pool.active_count(),
+            downloads_queued: self.download_pool.queued_count(),
+            meshes_to_apply: len(&self.meshes_to_apply),
+            images_to_apply: len(&self.images_to_apply),
+            audios_to_apply: len(&self.audios_to_apply),
+            meshes_served: keys(&self.meshes),
+            images_served: keys(&self.images),
+            audios_served: keys(&self.audios),
+        }
+    }
+
+    pub(crate) fn verif_cached(
+        &self,
+        class: crate::verif::AssetClass,
+        id: &Uuid,
+        to_apply: bool,
+    ) -> Option<Vec<u8>> {
+        use crate::verif::AssetClass::*;
+        let c = match (class, to_apply) {
+            (Mesh, false) => &self.meshes,
+            (Mesh, true) => &self.meshes_to_apply,
+            (Image, false) => &self.images,
+            (Image, true) => &self.images_to_apply,
+            (Audio, false) => &self.audios,
+            (Audio, true) => &self.audios_to_apply,
+        };
+        c.read().ok().and_then(|m| m.get(id).cloned())
+    }
+}
